@@ -26,6 +26,7 @@ import EvalFilter.Model.Api
 import EvalFilter.Proofs.CompJumps
 import EvalFilter.Proofs.ExprCorrect
 import EvalFilter.Proofs.StmtCorrect
+import EvalFilter.Proofs.FnDefs3
 
 set_option linter.unusedSimpArgs false
 
@@ -276,6 +277,25 @@ theorem C02_program_correct (F : FnTable) (prog : Program) (hp : pureSs prog = t
   program_correct F prog hp hne c hc fns obj env out polls depth f hF hnd
 
 open EvalFilter.Exec in
+/-- **… scripts that define and call their own functions included, with no hypothesis about the machine.**
+    For every script of the statement forms above whose function definitions are at top level (bodies of any
+    size, calling each other and themselves, before or after their definition) and whose calls stand in the
+    positions `x = f(a, …);`, `f(a, …);` and `return f(a, …);`: the run of the compiled program ends with
+    exactly the outcome of the big-step semantics over the script's own function table `defsOf prog`. -/
+theorem C02_program_with_functions_correct (prog : Program) (hp : pureSs prog = true) (hn : topNd prog = true)
+    (hne : 1 ≤ Stmt.sizes prog) (c : Compiled)
+    (hc : compileProgram prog = .ok c) (fns : List (Str × FnImpl)) (obj : HostVal) (env : Env) (out : Str)
+    (polls depth f : Nat)
+    (hnd : execSs (Api.newMachine c false fns (fun _ => false)) (defsOf prog) obj depth f prog env out ≠ .diverged) :
+    ∃ n k, ∀ fuel, ∃ st',
+      run (Api.newMachine c false fns (fun _ => false)) obj (fuel + n) ⟨env, out, polls, depth⟩ = st' ∧
+      (match programResult (polls + k) depth (execSs (Api.newMachine c false fns (fun _ => false)) (defsOf prog) obj depth f prog env out) with
+       | some (r, s) => st'.1 = r ∧ st'.2.out = s.out ∧ st'.2.env.globals = s.env.globals ∧ st'.2.polls = s.polls
+       | none => True) :=
+  program_correct (defsOf prog) prog hp hne c hc fns obj env out polls depth f
+    (fnOK_of_compile prog hp hn c hc fns obj) hnd
+
+open EvalFilter.Exec in
 /-- what the semantics says, spelled out for a block: statements run one after the other while each
     falls through; anything else (return, error) ends the block with that outcome -/
 theorem C02_block_semantics (M : Machine) (F : FnTable) (obj : HostVal) (depth f : Nat) (s : Stmt) (ss : List Stmt) (env : Env) (out : Str) :
@@ -444,6 +464,28 @@ example : pureSs progS = true := by decide
 example : compileProgram progS = .ok compS := by rfl
 example : ∃ e o, execSs (Api.newMachine compS false [] (fun _ => false)) [] .nilIface 0 12 progS {} [] = .returned (.str ['b']) e o :=
   ⟨_, _, by rfl⟩
+/-- a recursive function, called before its definition:
+    `x = fact(4); function fact(n) { if (n < 2) { return 1; } r = fact(n - 1); return n * r; } return x;` -/
+private def progR : Program :=
+  [ .expr (.assign ['x'] (.call (.ident ['f','a','c','t']) [.intLit ['4'] 4])),
+    .expr (.funcDef ['f','a','c','t'] [['n']]
+      [ .expr (.ifE (.infix ['<'] (.ident ['n']) (.intLit ['2'] 2)) [ .ret (.intLit ['1'] 1) ] none),
+        .expr (.assign ['r'] (.call (.ident ['f','a','c','t']) [.infix ['-'] (.ident ['n']) (.intLit ['1'] 1)])),
+        .ret (.infix ['*'] (.ident ['n']) (.ident ['r'])) ]),
+    .ret (.ident ['x']) ]
+private def compR : Compiled := match compileProgram progR with | .ok c => c | .error _ => ⟨[], [], []⟩
+example : pureSs progR = true := by decide
+example : topNd progR = true := by decide
+example : compileProgram progR = .ok compR := by
+  have hok : (match compileProgram progR with | .ok _ => true | .error _ => false) = true := by decide +kernel
+  unfold compR
+  cases h : compileProgram progR with
+  | ok c => rfl
+  | error e => rw [h] at hok; cases hok
+/-- … and it yields 4! = 24 (evaluated by the kernel) -/
+example : (match execSs (Api.newMachine compR false [] (fun _ => false)) (defsOf progR) .nilIface 0 40 progR {} [] with
+    | .returned (.int v) _ _ => v == 24
+    | _ => false) = true := by decide +kernel
 end nonvacuous
 
 end EvalFilter.Props.C02
